@@ -37,6 +37,7 @@ EXC_PARENTS = {
     "RefResolutionError": "Exception", "UndefinedTypeCheck": "Exception", "UnknownType": "Exception",
     "FormatError": "Exception", "_CannotLoadFile": "Exception", "_DontDoThat": "Exception",
     "AnyException": "Exception",     # an arbitrary exception from an abstract callable
+    "Warning": "Exception", "DeprecationWarning": "Warning", "UserWarning": "Warning",
 }
 
 
